@@ -1,4 +1,100 @@
-(* C26 — property theorems only *)
+(* C26 — property theorems only: each closed by [exact lemma], followed by Print Assumptions.
+   Vocabulary (Model.v / Spec.v / Proof*.v):
+     read_stream allc v1 lines   the chunks returned by successive ReadMultiline calls (first call with
+                                 ReadOptCollectAllComments iff allc) until "" / -1 comes back, and Done
+     split_nl inp                the lines bufio's ReadBytes('\n') delivers for the byte stream inp
+     rstep / rrun                the reference lexical classifier (look-ahead scanner), rrun r d s after = state and
+                                 bracket depth after scanning s from state r, depth d
+     hb_rewrite RCode inp        inp with every "#!" that starts a comment replaced by "//"
+     bare_hash RCode inp         some '#' outside literals/comments is not followed by '!' (gomacro's HASH token)
+     R m r nx                    machine mode m corresponds to reference state r when the next byte has class nx
+     cuts P inp cs               inp = piece_1 ++ piece_2 ++ ..., |piece_i| = |chunk_i|, and P piece_i rest_i chunk_i
+                                 holds for every chunk returned with err == nil (every non-final chunk) *)
 From Coq Require Import List NArith ZArith Bool.
-From Verif Require Import Common.GoStr C26.Model C26.Proof.
+From Verif Require Import Common.GoStr C26.Model C26.Spec C26.Proof C26.Proof2 C26.Proof3.
 Import ListNotations.
+Open Scope Z_scope.
+
+(* ---- losslessness, for every byte sequence (premise: no bare '#'; see the refutation below) ---- *)
+Theorem C26_lossless : forall inp allc v1,
+  bare_hash RCode inp = false ->
+  exists cs, read_stream allc v1 (split_nl inp) = (cs, Done) /\ concat (map c_src cs) = hb_rewrite RCode inp.
+Proof. exact lossless. Qed.
+Print Assumptions C26_lossless.
+
+(* Go source has no '#' outside literals and comments: the chunks concatenate to the input itself *)
+Theorem C26_lossless_go : forall inp allc v1,
+  hash_in_code RCode inp = false ->
+  exists cs, read_stream allc v1 (split_nl inp) = (cs, Done) /\ concat (map c_src cs) = inp.
+Proof. exact lossless_go. Qed.
+Print Assumptions C26_lossless_go.
+
+(* ... and with a leading "#!" line: exactly that "#!" is turned into "//" *)
+Theorem C26_lossless_hashbang : forall rest allc v1,
+  hash_in_code RLine rest = false ->
+  exists cs, read_stream allc v1 (split_nl (35 :: 33 :: rest)%N) = (cs, Done) /\
+             concat (map c_src cs) = (47 :: 47 :: rest)%N.
+Proof. exact lossless_hashbang. Qed.
+Print Assumptions C26_lossless_hashbang.
+
+(* the premise is needed: in "#(!" the machine stays in mode mHash over the bracket and then overwrites the
+   bracket, "#(!\n" comes back as "#//\n" *)
+Theorem C26_lossless_bare_hash_refuted :
+  exists inp, bare_hash RCode inp = true /\
+    concat (map c_src (fst (read_stream true false (split_nl inp)))) <> hb_rewrite RCode inp /\
+    concat (map c_src (fst (read_stream true false (split_nl inp)))) = [35; 47; 47; 10]%N.
+Proof. exists [35; 40; 33; 10]%N. vm_compute. repeat split; discriminate. Qed.
+Print Assumptions C26_lossless_bare_hash_refuted.
+
+(* BufReadline.Read also replaces U+2029 by '\n': the delivered lines are not the stream *)
+Theorem C26_paragraph_separator_not_lossless :
+  exists inp, concat (bufread inp) <> inp.
+Proof. exists [97; 226; 128; 169; 98]%N. vm_compute. discriminate. Qed.
+Print Assumptions C26_paragraph_separator_not_lossless.
+
+(* ---- the mode machine tracks the reference classifier ---- *)
+(* one byte: if mode and reference state correspond before the byte they correspond after it (after a newline
+   the machine may still be in mLineComment, which it leaves at the end of the line), the bracket counters
+   agree, and the "#!" rewrite happens exactly in mode mHash on '!' *)
+Theorem C26_mode_tracks_lexer_byte : forall s p c r nx,
+  R (s_m s) r (Some c) -> hash_fine r c nx ->
+  let s' := fst (step s p c) in
+  let r' := rstep r c nx in
+  (R (s_m s') r' nx \/ (c = CNl /\ s_m s' = mLineComment /\ r' = RCode))
+  /\ s_paren s' = rdepth_step r c (s_paren s)
+  /\ (snd (step s p c) = true <-> (s_m s = mHash /\ c = CBang)).
+Proof. exact step_sim. Qed.
+Print Assumptions C26_mode_tracks_lexer_byte.
+
+(* one complete line (character loop + end-of-line code), anywhere in a stream *)
+Theorem C26_mode_tracks_lexer : forall seg rest s p r d,
+  ~ In 10%N seg ->
+  R (s_m s) r (peek ((seg ++ [10%N]) ++ rest)) -> s_m s <> mHash -> s_paren s = d ->
+  bare_hash r ((seg ++ [10%N]) ++ rest) = false ->
+  exists s' acc', run_line s p [] (seg ++ [10%N]) = Some (s', acc') /\
+    let '(r', d') := rrun r d (seg ++ [10%N]) (peek rest) in
+    R (s_m (eol_reset_comment s')) r' (peek rest) /\ s_paren (eol_reset_comment s') = d'.
+Proof. exact line_sim. Qed.
+Print Assumptions C26_mode_tracks_lexer.
+
+(* ---- a non-final chunk never ends inside a string, raw string, rune, comment or open bracket ---- *)
+Theorem C26_never_inside : forall inp allc v1 cs st,
+  bare_hash RCode inp = false -> read_stream allc v1 (split_nl inp) = (cs, st) ->
+  cuts (fun piece rest _ => exists d, rrun RCode 0 piece (peek rest) = (RCode, d) /\ d <= 0) inp cs.
+Proof. exact never_inside. Qed.
+Print Assumptions C26_never_inside.
+
+(* ---- the hypotheses are satisfiable on non-trivial values ---- *)
+(* x := `a<NL>b` + 1<NL>/* c */ y()<NL> : two chunks, the first spans the raw string *)
+Example C26_ex_two_chunks :
+  let inp := [120;32;58;61;32;96;97;10;98;96;32;43;32;49;10;47;42;32;99;32;42;47;32;121;40;41;10]%N in
+  bare_hash RCode inp = false /\ hash_in_code RCode inp = false /\
+  map (fun c => (length (c_src c), c_first c, c_err c)) (fst (read_stream true false (split_nl inp)))
+  = [(15%nat, 0, ENone); (12%nat, 8, ENone)].
+Proof. vm_compute. auto. Qed.
+
+(* "     f(<NL>1); for<NL>{ break }<NL>" (DESIGN section 7 #4) is one chunk with the fixed index arithmetic *)
+Example C26_ex_keyword_index :
+  map (fun c => length (c_src c)) (fst (read_stream true false (split_nl
+     [32;32;32;32;32;102;40;10;49;41;59;32;102;111;114;10;123;32;98;114;101;97;107;32;125;10]%N))) = [26%nat].
+Proof. vm_compute. reflexivity. Qed.
